@@ -327,7 +327,14 @@ def nonlin_posterior(ctx, rec):
     A, y = _lin_data(rec)
     n = rec["dim"]
     prior = _prior(rec)
-    fwd = lambda x: np.tanh(A @ np.asarray(x, float).reshape(-1))
+    if rec.get("boxed_lik"):
+        # a hard constraint in the likelihood: outside the box the model output is astronomically far from any data
+        def fwd(x):
+            x = np.asarray(x, float).reshape(-1)
+            # (huge but finite: the squared misfit overflows to inf, the log-likelihood is -inf and nothing is NaN)
+            return np.tanh(A @ x) if np.all(np.abs(x) < 2.5) else np.full(A.shape[0], 1e200)
+    else:
+        fwd = lambda x: np.tanh(A @ np.asarray(x, float).reshape(-1))
     pf = Probe(ctx, "forward", fwd)
     model = Model(pf, range_geometry=A.shape[0], domain_geometry=n)
     nc = rec.get("noise_cov", 0.5)
@@ -423,6 +430,10 @@ def gen_exp_scenario(r, kind=None, dim_max=5):
     elif kind == "PCN":
         t.update(prior=r.choice(["gauss", "gauss_vec", "gauss_full", "gauss_sqrtprec_full"]), m=dim + r.randint(0, 2),
                  prior_mean=r.choice([0.0, 0.0, 0.7]))
+        if r.random() < 0.2:
+            t["boxed_lik"] = True
+            if r.random() < 0.6:
+                ip = [round(v * 6, 3) for v in ip]          # possibly a start value of zero likelihood
         k["scale"] = round(r.choice([0.05, 0.2, 0.5, 0.9]), 3)
         if r.random() < 0.7:
             k["initial_point"] = ip
